@@ -328,6 +328,50 @@ def write_ctables():
     return hashlib.sha256(text.encode()).hexdigest(), old != text, data
 
 
+def decimal_zeros():
+    """Zero digits of the runs of ten consecutive decimal digits (category Nd) that `\\d` matches."""
+    import unicodedata
+    chars = re.findall(r'\d', ''.join(map(chr, range(0x110000))))
+    zeros = []
+    cps = sorted(ord(c) for c in chars)
+    seen = set(cps)
+    for cp in cps:
+        if unicodedata.digit(chr(cp)) == 0:
+            if not all((cp + k) in seen and unicodedata.digit(chr(cp + k)) == k for k in range(10)):
+                raise ValueError(f'digit run at {cp:#x} is not 0..9')
+            zeros.append(cp)
+    if len(zeros) * 10 != len(cps):
+        raise ValueError('decimal digits outside runs of ten')
+    return zeros
+
+
+def lex_rule_order():
+    """Names of the token rules in the order PLY tries them (functions in definition
+    order, then strings by decreasing regex length)."""
+    sys.path.insert(0, REPO)
+    import importlib
+    prs = importlib.import_module('dd._parser')
+    lx = prs.Lexer().lexer
+    names = []
+    for _rx, findex in lx.lexstatere['INITIAL']:
+        for item in findex:
+            if item is None:
+                continue
+            _f, name = item
+            if name is None:
+                # ignored rule (a function that returns no token): recover its name
+                name = getattr(_f, '__name__', 't_?')[2:]
+            names.append(name)
+    return names
+
+
+def lex_ignore():
+    sys.path.insert(0, REPO)
+    import importlib
+    prs = importlib.import_module('dd._parser')
+    return prs.Lexer.t_ignore
+
+
 def generate():
     write_ctables()
     bdd_py = os.path.join(REPO, 'dd', 'bdd.py')
@@ -383,6 +427,12 @@ def generate():
         f'(.{a}, {lean_str(t)})' for a, t in prec))
     L.append('def productions : List (String × String) := ' + lean_list(
         f'({lean_str(n)}, {lean_str(d)})' for n, d in prods))
+    # lexer facts of the Python runtime / PLY that the tokenizer model relies on
+    L.append('/-- code points of the zero digits of the Unicode decimal-digit runs matched by `\\d` (str patterns) -/')
+    L.append('def decimalZeros : List Nat := ' + lean_list(str(z) for z in decimal_zeros()))
+    L.append('/-- token rules in the order of the PLY master regular expression -/')
+    L.append('def lexRuleOrder : List String := ' + lean_list(lean_str(n) for n in lex_rule_order()))
+    L.append('def lexIgnore : String := ' + lean_str(lex_ignore()))
     L.append('end Gen')
     text = '\n'.join(L) + '\n'
     os.makedirs(os.path.dirname(OUT), exist_ok=True)
